@@ -558,3 +558,69 @@ ben("g-benign-pg-alter-match-guard", ["C14"], "src/backend/postgres/table.rs",
     """                        if !(first || no_clause) {
                             write!(sql, ", ").unwrap();
                         }""")
+ben("g-benign-index-columns-first-rest", ["C13", "C14"], "src/backend/index_builder.rs",
+    """        columns.iter().fold(true, |first, col| {
+            if !first {
+                write!(sql, ", ").unwrap();
+            }
+            col.name.prepare(sql.as_writer(), self.quote());
+            self.write_column_index_prefix(&col.prefix, sql);
+            if let Some(order) = &col.order {
+                match order {
+                    IndexOrder::Asc => write!(sql, " ASC").unwrap(),
+                    IndexOrder::Desc => write!(sql, " DESC").unwrap(),
+                }
+            }
+            false
+        });""",
+    """        let mut columns = columns.iter();
+        if let Some(col) = columns.next() {
+            col.name.prepare(sql.as_writer(), self.quote());
+            self.write_column_index_prefix(&col.prefix, sql);
+            if let Some(order) = &col.order {
+                match order {
+                    IndexOrder::Asc => write!(sql, " ASC").unwrap(),
+                    IndexOrder::Desc => write!(sql, " DESC").unwrap(),
+                }
+            }
+        }
+        for col in columns {
+            write!(sql, ", ").unwrap();
+            col.name.prepare(sql.as_writer(), self.quote());
+            self.write_column_index_prefix(&col.prefix, sql);
+            if let Some(order) = &col.order {
+                match order {
+                    IndexOrder::Asc => write!(sql, " ASC").unwrap(),
+                    IndexOrder::Desc => write!(sql, " DESC").unwrap(),
+                }
+            }
+        }""")
+ben("c10-benign-row-via-prepare-tuple", ["C10", "C07", "C08"], "src/backend/query_builder.rs",
+    """                            write!(sql, "(").unwrap();
+                            row.iter().fold(true, |first, col| {
+                                if !first {
+                                    write!(sql, ", ").unwrap()
+                                }
+                                self.prepare_simple_expr(col, sql);
+                                false
+                            });
+                            write!(sql, ")").unwrap();
+                            false""",
+    """                            self.prepare_tuple(row, sql);
+                            false""")
+brk("c10-row-tuple-unwrapped", ["C10"], "src/backend/query_builder.rs",
+    """                            write!(sql, "(").unwrap();
+                            row.iter().fold(true, |first, col| {
+                                if !first {
+                                    write!(sql, ", ").unwrap()
+                                }
+                                self.prepare_simple_expr(col, sql);
+                                false
+                            });
+                            write!(sql, ")").unwrap();
+                            false""",
+    """                            match row.as_slice() {
+                                [SimpleExpr::Tuple(exprs)] => self.prepare_tuple(exprs, sql),
+                                _ => self.prepare_tuple(row, sql),
+                            }
+                            false""", "C10.R4:row-data:prepare_tuple:exprs")
